@@ -51,6 +51,13 @@ CHECKS = {
         "Bitwise equality relies on an exactly rounded (+,* only) test likelihood. Pools are in-process fakes except for the real-pool sub-grid.",
         "4/C10",
     ),
+    "C15": (
+        "model_checking",
+        "exhaustive trajectory words on a scripted proposal and exhaustive criteria x tolerance lattices, each prediction replayed as a real run",
+        "Standard sampler: the real nested_sampling_loop (nlive 10) is driven through every trajectory word over a 4-letter alphabet; from the recorded condition sequence the stopping iteration is predicted for every tolerance placed between consecutive recorded values and every cap (none, 1, first, first+-1) and compared with a real re-run; the compared value must equal history['dlogZ'] and lie in the interval spanned by the two conventions of the remaining-evidence estimate recomputed from the samples; on convergence the live points are consumed once and a second call is idempotent. Importance sampler: per configuration one recorded trajectory; every criterion, alias and pair x any/all x tolerance lattice around the recorded values x min/max iteration is predicted and re-run; ESS, evidence change, fractional error and Z_err are recomputed from the samples (mpmath). Real runs of both samplers are re-run and resumed from the final checkpoint (no further evaluations, identical results).",
+        "'meets' is value <= tolerance for every criterion as documented; tolerance = +inf is excluded (criteria start at +inf). Known finding: capped standard runs are not idempotent (pinned by an existing test).",
+        "4/C15",
+    ),
     "C16": (
         "exploration",
         "exhaustive weight-vector enumeration with the uniform variates and numpy.random.choice behind explorer-owned seams",
@@ -83,7 +90,7 @@ NOT_APPLICABLE = [
 
 ENGINES = [
     {"name": "E1/E2 explorer", "path": "mc/explore.py", "serves_properties": ["C01", "C04", "C18"], "kind_free_text": "level-synchronous explicit-state BFS over real transition functions (history replay, canonical hashing, lock-step reference model); deviation-bounded choice-tree DFS"},
-    {"name": "real-run driver and monitors", "path": "mc/runs.py", "serves_properties": ["C01", "C03", "C05"], "kind_free_text": "tiny configurations of both samplers, kill-at-checkpoint resume histories, invariant monitors (mc/monitors.py), independent result oracles"},
+    {"name": "real-run driver and monitors", "path": "mc/runs.py", "serves_properties": ["C01", "C03", "C05", "C15"], "kind_free_text": "tiny configurations of both samplers, kill-at-checkpoint resume histories, invariant monitors (mc/monitors.py), independent result oracles"},
     {"name": "runner", "path": "mc/core.py", "serves_properties": [], "kind_free_text": "context, 16-process fork pool, evidence writer with schema validation, known-finding matcher, replay files"},
 ]
 
